@@ -9,7 +9,7 @@ COV=/tmp/vcov
 SYS=$(rustc +nightly --print sysroot)
 BIN=$SYS/lib/rustlib/x86_64-unknown-linux-gnu/bin
 mkdir -p $COV/prof $COV/out work/scratch
-(cd harness && CARGO_NET_OFFLINE=true RUSTFLAGS="-Cinstrument-coverage" cargo +nightly build --offline --profile mon --target-dir $COV/target 2>&1 | tail -2)
+(cd harness && LLVM_PROFILE_FILE="$COV/build-%p.profraw" CARGO_NET_OFFLINE=true RUSTFLAGS="-Cinstrument-coverage" cargo +nightly build --offline --profile mon --target-dir $COV/target 2>&1 | tail -2)
 VH=$COV/target/mon/vh
 for p in ${1:-C01 C02 C03 C04 C05 C06 C07 C08 C09 C10 C11 C12 C13 C14 C15 C16 C17 C18 C19 C20}; do
   for sh in $(seq 0 $((${NSH:-1} - 1))); do
